@@ -327,6 +327,26 @@ def f6_desc():
 
 # ----------------------------------------------------------------------------------------------
 
+def _perturb(sess, rng):
+    """between two attacks: a blocking (or any other) agent steps to an empty cell, or dies and leaves the grid,
+    the way the move actors / a lethal hit would do it -- through the real Grid"""
+    w = sess.w
+    alive = [ag for ag in w.agent_list[1:] if ag.active]
+    if not alive:
+        return
+    blockers = [ag for ag in alive if ag.blocking]
+    ag = rng.choice(blockers) if blockers and rng.random() < 0.7 else rng.choice(alive)
+    pos = tuple(int(x) for x in ag.position)
+    if rng.random() < 0.35:
+        ag.health = 0
+        w.grid.remove(ag, pos)
+        return
+    empty = [(r, c) for r in range(w.grid.rows) for c in range(w.grid.cols) if not w.grid[r, c]]
+    if empty:
+        w.grid.remove(ag, pos)
+        assert w.grid.place(ag, rng.choice(empty))
+
+
 class AttackProp(core.Prop):
     def __init__(self, pid="C11"):
         self.pid = pid
@@ -441,11 +461,13 @@ class AttackProp(core.Prop):
                 yield self._case(sess, pre, cw, tape, out, ins, extra2)
             # successive attacks on the same world (no restore in between)
             MoveProp._load_dyn(sess, pre0)
-            for _ in range(rng.randint(2, 4)):
+            for _ in range(rng.randint(2, 6)):
                 attackers = [i for i, ag in enumerate(sess.w.agent_list)
                              if ag.active and sess.stat[3][i][6]]
                 if not attackers:
                     break
+                if rng.random() < 0.5:
+                    _perturb(sess, rng)      # the layout changes between two attacks of the same actor object
                 a = 0 if (0 in attackers and rng.random() < 0.6) else rng.choice(attackers)
                 dims = space_dims(sess, a)
                 keys = enc_keys(sess, a, rng) if sess.kind == "encoding" else None
